@@ -47,7 +47,7 @@ def sample_args(rng, name, cheb, tier, degree=None):
             eps = float(rng.choice([0.5, eps, 1e-10 if cheb else 1e-4]))
         return {"tau": tau, "epsilon": eps}
     if fam == "inv":
-        kappa = float(rng.uniform(1.5, 6 if not big else 10)) if cheb else float(rng.uniform(1.5, 3.0))
+        kappa = float(rng.uniform(1.5, 10)) if cheb else float(rng.uniform(1.5, 3.0))
         if corner:
             kappa = float(rng.choice([1.5, 1.5, 1.6, 2.0, kappa]))
         while True:
@@ -100,11 +100,16 @@ def corner_args(name, cheb):
     fam, par = REG[name][1], REG[name][2]
     if fam in ("cos", "sin"):
         hi, tight = (30.0, 1e-10) if cheb else (12.0, 1e-4)
-        return [{"tau": t, "epsilon": e} for t, e in ((0.01, 0.5), (0.01, tight), (1.0, 0.5), (hi, 0.5), (hi, tight), (2.0, 0.1))]
+        l = [(0.01, 0.5), (0.01, tight), (1.0, 0.5), (hi, 0.5), (hi, tight), (2.0, 0.1)]
+        # tau at zeros of the Bessel functions whose values are the series coefficients (2 J_n(tau)): a coefficient in the
+        # MIDDLE of the series is (numerically) zero there while later ones are not
+        zs = [scipy.special.jn_zeros(n, m)[-1] for n, m in ((0, 1), (0, 2), (2, 1), (4, 2), (6, 3), (1, 2), (3, 1), (5, 2), (8, 1), (7, 3))]
+        l += [(float(z), e) for z, e in zip(zs, (0.1, 1e-3, 0.5, 0.01, tight, 0.3, 1e-2, 1e-3, 0.5, 0.05)) if z <= hi]
+        return [{"tau": t, "epsilon": e} for t, e in l]
     if fam == "inv":
         l = [(1.5, 0.5), (1.5, 0.4), (1.6, 0.5), (1.5, 1e-4), (3.0, 0.5)]
         if cheb:
-            l += [(10.0, 0.5), (6.0, 1e-4)]
+            l += [(10.0, 0.5), (6.0, 1e-4), (10.0, 0.1), (8.0, 0.01), (7.0, 0.3), (5.0, 0.01)]
         return [{"kappa": k, "epsilon": e} for k, e in l]
     if fam == "invrect":
         return [{"degree": 2, "delta": 1.0, "kappa": 1.5, "epsilon": 0.3}, {"degree": 4, "delta": 4.0, "kappa": 1.5, "epsilon": 0.3}]
